@@ -68,11 +68,13 @@ RECURSIVE ParseCond(_), ParsePart(_), ParsePartList(_), TryPath(_)
 (***************************************************************************)
 EscCode == C("esc_path")
 PathCode == C("path")
-HasEsc(cs) == Len(cs) >= Len(EscCode) /\ SubSeqOf(EscCode, cs)
-RECURSIVE ReplaceEsc(_)      \* str.replace("\\path", "path")
+\* keys are read in any letter case, escapes too: "\Path" is the escaped literal key "Path"
+HasEsc(cs) == Len(cs) >= Len(EscCode) /\ SubSeqOf(EscCode, Lower(cs))
+RECURSIVE ReplaceEsc(_)      \* every "\\path" (any case) loses its backslash, the letters stay as written
 ReplaceEsc(cs) ==
   IF Len(cs) < Len(EscCode) THEN cs
-  ELSE IF SubSeq(cs, 1, Len(EscCode)) = EscCode THEN PathCode \o ReplaceEsc(SubSeq(cs, Len(EscCode) + 1, Len(cs)))
+  ELSE IF Lower(SubSeq(cs, 1, Len(EscCode))) = EscCode
+       THEN SubSeq(cs, 2, Len(EscCode)) \o ReplaceEsc(SubSeq(cs, Len(EscCode) + 1, Len(cs)))
   ELSE <<Head(cs)>> \o ReplaceEsc(Tail(cs))
 ModOfTok(tk) ==
   CASE tk = C("type") -> "dtype" [] tk = C("dtype") -> "dtype" [] tk = C("len") -> "length" [] tk = C("length") -> "length"
